@@ -4,13 +4,26 @@
    functional theorems where proved (C10 push law, C11 set_host) and by the correspondence check. *)
 From Coq Require Import List NArith Bool Arith.
 Import ListNotations.
-Require Import V.Regex V.Parse V.ParseProofs V.PathSpec V.Splice V.Setters V.Push V.Auth V.AuthProofs V.AuthMut V.AuthMutProofs2 V.RefPath V.RefAuth V.C04Proofs V.C04Proofs2.
+Require Import V.Regex V.Parse V.ParseProofs V.PathSpec V.Splice V.Setters V.Push V.Auth V.AuthProofs V.AuthMut V.AuthMutProofs2 V.RefPath V.RefAuth V.C04Proofs V.C04Proofs2 V.Abnf V.BridgePaths V.C02Bridge V.ValidSetInst V.C04Valid.
 Local Open Scope nat_scope.
 
 Theorem C04_setter_sequences_partial : forall (ops : list sop) (p : parts), wf_parts p -> Forall arg_ok ops ->
   exists p', run ops (compose p) = Some (compose p') /\ wf_parts p'.
 Proof. exact run_wf. Qed.
 Print Assumptions C04_setter_sequences_partial.
+
+(* AT THE LEVEL OF THE RFC GRAMMAR: from ANY string of the URI-reference (IRI-reference) language, any finite
+   sequence of the five setters whose arguments are valid values of their component types (or removals)
+   returns -- no panic -- a string of the same language; with C01 (validator = language, re-proved on every run)
+   the buffer re-parses as the same type after every call. *)
+Theorem C04_setters_keep_validity_URI : forall ops s, L (IRI_reference U U) s -> Forall (varg U U) ops ->
+  exists s', run ops s = Some s' /\ L (IRI_reference U U) s'.
+Proof. exact valid_sequences_U. Qed.
+Print Assumptions C04_setters_keep_validity_URI.
+Theorem C04_setters_keep_validity_IRI : forall ops s, L (IRI_reference I C02Bridge.P) s -> Forall (varg I C02Bridge.P) ops ->
+  exists s', run ops s = Some s' /\ L (IRI_reference I C02Bridge.P) s'.
+Proof. exact valid_sequences_I. Qed.
+Print Assumptions C04_setters_keep_validity_IRI.
 
 (* the same for sequences that MIX the five setters, path push, path clear, and whole histories of
    set_userinfo / set_host / set_port edits through one authority handle (the invariant additionally says that
